@@ -157,7 +157,7 @@ const SHAPES: [&str; 19] = [
     r#"{ Number(min: 0, max: 9) { value @tag(name: "t") @output successor { value @tag(name: "u") successor { value @tag(name: "w") predecessor { predecessor { value @output(name: "s") @filter(op: "{OP}", value: ["%w"]) @filter(op: "<", value: ["%u"]) @filter(op: "!=", value: ["%w"]) } } } } } }"#,
 ];
 
-// @grid c04_grid_pruning_adapter_equivalence tier=quick bound="every numbers-schema query of the corpus plus 16 hint-specific shapes (static/dynamic filters on the current vertex, a neighbour, behind @optional, inside @fold with and without count filters, behind @recurse, several tag filters on one property, fold-count tags, nullable tags) x operators {=, !=, <, <=, >, >=} x arguments {0, 3, 5, 9}; numbers 0..9"
+// @grid c04_grid_pruning_adapter_equivalence tier=quick bound="[+ 300 seeded random accepted documents, VERIF_SEED] every numbers-schema query of the corpus plus 16 hint-specific shapes (static/dynamic filters on the current vertex, a neighbour, behind @optional, inside @fold with and without count filters, behind @recurse, several tag filters on one property, fold-count tags, nullable tags) x operators {=, !=, <, <=, >, >=} x arguments {0, 3, 5, 9}; numbers 0..9"
 // @ob an adapter that prunes with every hint entry point (statically_required_property, dynamically_required_property(..).resolve_with, first_mandatory_edge and the hints of the edge's destination) returns exactly the rows of the adapter that ignores the hints
 pub(crate) fn c04_grid_pruning_adapter_equivalence() {
     pruning_grid("c04_grid_pruning_adapter_equivalence", false);
@@ -182,6 +182,8 @@ fn pruning_grid(name: &str, ge_tags: bool) {
     let schema = NumbersAdapter::new();
     let mut cases: Vec<(String, String, BTreeMap<Arc<str>, FieldValue>)> = Vec::new();
     for c in corpus() { if c.schema_name == "numbers" { cases.push((c.name.clone(), c.query.clone(), c.arguments.clone())); } }
+    // seeded random accepted documents: only in the grid that must pass (the `>=`-with-tag grid is pinned to an exact known failure set)
+    if !ge_tags { for (i, (d, _)) in crate::verif_random::accepted(600, 4).into_iter().take(300).enumerate() { cases.push((format!("rnd_{i} {}", d.query), d.query, d.arguments)); } }
     for (i, shape) in SHAPES.iter().enumerate() { for op in ["=", "!=", "<", "<=", ">", ">="] { for x in [0i64, 3, 5, 9] {
         let q = shape.replace("{OP}", op);
         let mut args: BTreeMap<Arc<str>, FieldValue> = BTreeMap::new();
